@@ -81,6 +81,20 @@ def gen_case(rng):
         c["expect_docs"] = exp
         c["noshrink"] = True
         return c
+    if r < 0.62:
+        # the index stored in a field (`idx: $repeat`) and reached THROUGH A REFERENCE from a template, in a value and in a
+        # key; also under a named count and with the count overridden by an upper layer.  The model is the judge.
+        named = rng.random() < 0.4
+        idx = "$repeat:n" if named else "$repeat"
+        doc = {"idx": idx, "name": "$\"svc-{idx}\"", "$repeat": ({"n": rng.choice([1, 2, 3])} if named else rng.choice([1, 2, 3]))}
+        if rng.random() < 0.5:
+            doc["$\"port-{idx}\""] = rng.choice([1, "$\"{idx}{idx}\""])
+        if rng.random() < 0.4:
+            doc["deep"] = {"i": idx, "l": ["$\"<{deep.i}>\"", idx]}
+        layers = [doc]
+        if rng.random() < 0.3:
+            layers.append({"$repeat": ({"n": 4} if named else 4)})
+        return chain_case(layers, env={}, tail=("outdocs",))
     doc = gen.eval_doc(rng, W, depth=rng.randint(2, 3), nfeat=(1, 3))
     return chain_case([doc], env=gen.ENV, tail=("outdocs",))
 
